@@ -491,6 +491,19 @@ func runC05(c *Ctx) {
 		// the same as value-level assumptions (they also decide `runFailed := !outOfAmmo && !IsCtxError(..); if runFailed`)
 		assume := func(ctxErr bool) []Assumption {
 			as := []Assumption{{isCtxErrCall, ctxErr}}
+			if !ctxErr {
+				// IsCtxError(ctx, nil) is true: an error that is not a context error is not nil
+				isNilCmp := func(op token.Token) func(ssa.Value) bool {
+					return func(v ssa.Value) bool {
+						b, ok := v.(*ssa.BinOp)
+						if !ok || b.Op != op {
+							return false
+						}
+						return (IsNilConst(b.Y) && inCaseVal(b.X, recvPred, 0)) || (IsNilConst(b.X) && inCaseVal(b.Y, recvPred, 0))
+					}
+				}
+				as = append(as, Assumption{isNilCmp(token.EQL), false}, Assumption{isNilCmp(token.NEQ), true})
+			}
 			if name == "runRes" {
 				if g := outOfAmmoGlobal(c); g != nil {
 					isCmp := func(eq bool) func(ssa.Value) bool {
